@@ -45,7 +45,8 @@ func (p *c19) Init(tier string, seed int64) {
 	for ci, s := range gen.Corpus() {
 		f := gen.Split(s)
 		for j := 0; j <= len(f); j++ {
-			if (j+ci)%stride != 0 {
+			// every boundary of the templates with interpolated strings (the tokeniser runs a nested loop there)
+			if (j+ci)%stride != 0 && !strings.Contains(s, "#{") {
 				continue
 			}
 			p.inj = append(p.inj, strings.Join(f[:j], "")+bad[(j+ci)%len(bad)]+strings.Join(f[j:], ""))
@@ -289,7 +290,7 @@ func uniqStrings(xs []string) []string {
 }
 
 func (p *c19) Rule() string {
-	return "histories of calls, census after EVERY call: (1) exhaustive: every corpus template with one syntax error (illegal character, unknown tag, surplus literal, stray delimiter, lone quote or parenthesis) injected at every fragment boundary (every third boundary in quick), 25 calls per history, rotating over the string, memory and filesystem loaders, Parse and Execute, core and Twig environments - so the parser stops with 0..n tokens still to come; (2) seeded histories of 1..50 (quick) / 1..200 (thorough) calls over generated programs (include/embed/extends/import across files, so one call opens several files), templates that fail in the tokeniser or in the parser, templates that include/extend/import a broken template, run-time failures, missing templates, and names that can be opened but not read (a directory, the empty name), directly and through include/extends. (3) every sequence of <=3 (quick) / <=4 (thorough) fragments of the 26-fragment hostile alphabet through the string loader, 200 per history. The filesystem loader works on a directory the check creates and removes; in every other history the files carry modification times hours in the past, and one loader instance serves the whole history, so files are loaded repeatedly. Monitors: goroutine census (runtime.Stack(all), goroutines with a library frame, by state and top frame) after a bounded settling loop, the live-tokeniser gauge of the verif hook, and /proc/self/fd compared with the set before the history, with garbage collection disabled during the history so that a finalizer cannot hide a missing Close. Non-trivial = history with at least one failing call; injected histories are distinct by construction, random ones by (loader:outcome set, length)."
+	return "histories of calls, census after EVERY call: (1) exhaustive: every corpus template with one syntax error (illegal character, unknown tag, surplus literal, stray delimiter, lone quote or parenthesis) injected at every fragment boundary (every third boundary in quick, every boundary of templates with interpolated strings), 25 calls per history, rotating over the string, memory and filesystem loaders, Parse and Execute, core and Twig environments - so the parser stops with 0..n tokens still to come; (2) seeded histories of 1..50 (quick) / 1..200 (thorough) calls over generated programs (include/embed/extends/import across files, so one call opens several files), templates that fail in the tokeniser or in the parser, templates that include/extend/import a broken template, run-time failures, missing templates, and names that can be opened but not read (a directory, the empty name), directly and through include/extends. (3) every sequence of <=3 (quick) / <=4 (thorough) fragments of the 26-fragment hostile alphabet through the string loader, 200 per history. The filesystem loader works on a directory the check creates and removes; in every other history the files carry modification times hours in the past, and one loader instance serves the whole history, so files are loaded repeatedly. Monitors: goroutine census (runtime.Stack(all), goroutines with a library frame, by state and top frame) after a bounded settling loop, the live-tokeniser gauge of the verif hook, and /proc/self/fd compared with the set before the history, with garbage collection disabled during the history so that a finalizer cannot hide a missing Close. Non-trivial = history with at least one failing call; injected histories are distinct by construction, random ones by (loader:outcome set, length)."
 }
 
 func (p *c19) Assumptions() []string {
